@@ -3,7 +3,7 @@ use rusty_pc::*;
 
 use crate::input::StringView;
 use crate::pc_specific::*;
-use crate::tokens::comma_ws;
+use crate::tokens::{any_symbol_of, any_token_of, comma_ws};
 use crate::{ExpressionPos, ExpressionTrait, Expressions, Keyword, ParserError};
 
 /// Parses an expression.
@@ -48,7 +48,13 @@ pub fn csv_expressions_first_guarded()
 /// <ws> <expr>
 /// ```
 pub fn ws_expr_pos_p() -> impl Parser<StringView, Output = ExpressionPos, Error = ParserError> {
-    super::parenthesis::parser().or(lead_ws(expression_pos_p()))
+    // an opening parenthesis replaces the leading whitespace, but it is only
+    // the start of the expression: `NOT(1) = 5` is `NOT ((1) = 5)`
+    any_symbol_of!('(')
+        .map_to_unit()
+        .peek()
+        .and_keep_right(expression_pos_p())
+        .or(lead_ws(expression_pos_p()))
 }
 
 /// Parses an expression that is either surrounded by whitespace
